@@ -280,7 +280,7 @@ def gen_history_cases(ctx, n, has_artifact):
                 if first == ["write", "commit"] and not thorough and (k + len(rev)) % 3:
                     continue
                 cases.append(mk("derived", k, rev, gen_sessions(rng, 2, 3, first=first),
-                                features=(first != ["write", "commit"]) and (thorough or rev != "empty" or k % 4 == 0)))
+                                features=(first != ["write", "commit"]) and (thorough or (rev != "empty" and (first == [] or k % 2 == 0)) or k % 4 == 0)))
     if has_artifact:
         for k in ([1, 4, n] if not thorough else range(1, n + 1)):
             for rev in ["notable", "empty", "stamp:%d" % k]:
@@ -291,7 +291,7 @@ def gen_history_cases(ctx, n, has_artifact):
     for first in ([], ["commit"], ["write", "commit"], ["write"]):
         cases.append(mk("derived", n, "notable", gen_sessions(rng, 2, 4, first=first), nfits=0, start="fresh", features=True))
     # random histories, including malformed revision-table states
-    for _ in range(40 if not thorough else 400):
+    for _ in range(30 if not thorough else 400):
         base = "artifact" if (has_artifact and rng.random() < 0.2) else "derived"
         k = rng.randint(1 if base == "artifact" else 0, n)
         r = rng.random()
@@ -348,7 +348,7 @@ def gen_toy_cases(ctx):
     rng = ctx.rng
     thorough = ctx.tier == "thorough"
     cases = []
-    for _ in range(120 if not thorough else 1500):
+    for _ in range(100 if not thorough else 1500):
         steps = toy_steps(rng, allow_empty=True)
         schema = [["fit", ["id"] + rng.sample(TOY_COLS, rng.randint(0, 2))]]
         for t in TOY_TABLES[1:]:
@@ -380,7 +380,7 @@ def gen_get_steps_cases(ctx, raw_steps):
     rids += [D.step_id(s) for s in raw_steps[:2]]
     for rid in rids:
         cases.append({"kind": "get_steps", "steps": None, "rid": rid})
-    for _ in range(80 if not thorough else 600):
+    for _ in range(60 if not thorough else 600):
         steps = toy_steps(rng)
         m = len(steps)
         r = rng.random()
